@@ -162,21 +162,26 @@ MemDump(m, a, b) ==
 
 \* what : [k:"flags"] [k:"reg"] [k:"range",a,b] [k:"span",a,n] [k:"dsspan",n]
 \* result [ok |-> the command is answered (FALSE: refused as invalid input), out |-> bytes]
+\* constants are reduced modulo 2^20 by both readers before anything else (DESIGN 7.9)
 PrintOut(m, what) ==
+  LET a == IF "a" \in DOMAIN what THEN what.a % MB ELSE 0
+      b == IF "b" \in DOMAIN what THEN what.b % MB ELSE 0
+      n == IF "n" \in DOMAIN what THEN what.n % MB ELSE 0
+  IN
   CASE what.k = "flags" -> [ok |-> TRUE, out |-> PrintFlags(m)]
     [] what.k = "reg"   -> [ok |-> TRUE, out |-> PrintRegs(m)]
     [] what.k = "range" ->
-         IF what.a > what.b
-         THEN [ok |-> TRUE, out |-> MsgBackwards \o DecDigits(what.a) \o MsgGt \o DecDigits(what.b) \o <<NL>>]
-         ELSE [ok |-> TRUE, out |-> MemDump(m, what.a, what.b)]
+         IF a > b
+         THEN [ok |-> TRUE, out |-> MsgBackwards \o DecDigits(a) \o MsgGt \o DecDigits(b) \o <<NL>>]
+         ELSE [ok |-> TRUE, out |-> MemDump(m, a, b)]
     [] what.k = "span"  ->
-         IF what.a + what.n >= MB THEN [ok |-> FALSE, out |-> << >>]
-         ELSE [ok |-> TRUE, out |-> MemDump(m, what.a, what.a + what.n)]
+         IF a + n >= MB THEN [ok |-> FALSE, out |-> << >>]
+         ELSE [ok |-> TRUE, out |-> MemDump(m, a, a + n)]
     [] what.k = "dsspan" ->
          LET st == m.regs["ds"] * 16 IN
-         IF st + what.n >= MB
-         THEN [ok |-> TRUE, out |-> MsgDsOverflowA \o DecDigits(st) \o MsgDsOverflowB \o DecDigits(st + what.n) \o <<NL>>]
-         ELSE [ok |-> TRUE, out |-> MemDump(m, st, st + what.n)]
+         IF st + n >= MB
+         THEN [ok |-> TRUE, out |-> MsgDsOverflowA \o DecDigits(st) \o MsgDsOverflowB \o DecDigits(st + n) \o <<NL>>]
+         ELSE [ok |-> TRUE, out |-> MemDump(m, st, st + n)]
 
 (***************************************************************************)
 (* Messages citing a source line (C16)                                     *)
@@ -274,7 +279,7 @@ PromptCmd(d, c) ==
                                  ELSE [d1 EXCEPT !.phase = "invoke"]
          [] c.cls = "quit"    -> [Emit(d1, "prompt", MsgExiting \o <<NL>>) EXCEPT !.phase = "done", !.why = "quit"]
          [] c.cls = "print"   -> LET p == PrintOut(d.m, c.what) IN
-                                 IF p.ok THEN Emit(d1, "print", p.out) ELSE Emit(d1, "prompt", MsgInvalidInput \o <<NL>>)
+                                 IF p.ok THEN Emit(d1, "promptprint", p.out) ELSE Emit(d1, "prompt", MsgInvalidInput \o <<NL>>)
          [] c.cls = "garbage" -> Emit(d1, "prompt", MsgInvalidInput \o <<NL>>)
 
 Boot(P, C, image) ==
